@@ -35,7 +35,9 @@ def main():
             return 2
     wt = "/tmp/wt_seedc%s_%s_%s" % (rnd, prop, k)
     sh("git -C /repo worktree remove --force %s" % wt)
-    r = sh("git -C /repo worktree add -q --detach %s HEAD" % wt)
+    # SEED_BASE: the commit of /repo the change was written against, when a later "fix:" commit rewrote the same lines
+    base = os.environ.get("SEED_BASE", "HEAD")
+    r = sh("git -C /repo worktree add -q --detach %s %s" % (wt, base))
     if r.returncode:
         print(r.stdout)
         return 2
@@ -85,7 +87,7 @@ def main():
             am = out.get("agent_meta") if isinstance(out.get("agent_meta"), dict) else {}
             with open(os.path.join(d, "meta.json"), "w") as f:
                 json.dump({"property": prop, "breaks": am.get("summary", ""), "needs": am.get("needs", ""),
-                           "files": am.get("files", []),
+                           "files": am.get("files", []), **({"base": base} if base != "HEAD" else {}),
                            "confirmation": {"demo_on_clean_tree_exit": out["demo_on_clean_tree"]["exit"],
                                             "demo_on_mutant_exit": out["demo_on_mutant"]["exit"],
                                             "repo_tests_on_mutant": out["repo_tests_on_mutant"]},
